@@ -490,7 +490,7 @@ Proof.
     pose proof (emit_rect_count pref lastrect cmw cmh (bbox_of (r :: t)) Hcw Hch Hb) as Hrc.
     assert (Ec : classify pref = EcOther).
     { unfold exempt_from_coalescing in Eco. destruct (classify pref); cbn in Eco; try lia; reflexivity. }
-    cbn [emit_region emitted_len]. unfold emit_rect in *. destruct (bbox_of (r :: t)) as [[[bx by_] bw] bh].
+    cbn [bbox_region emit_region emitted_len]. unfold emit_rect in *. destruct (bbox_of (r :: t)) as [[[bx by_] bw] bh].
     rewrite Ec in *.
     destruct ((pref =? enc_Raw) || (pref =? -1)) eqn:?.
     + unfold emit_raw in *. destruct Hb. destruct ((bh =? 0) || (bw =? 0)) eqn:?; [lia|].
@@ -650,65 +650,121 @@ Proof.
   apply (tight_unknown_needs_lastrect lastrect w h). apply (count_tight_zero_iff lastrect x y w h Hw Hh). lia.
 Qed.
 
-Lemma announce_fixed_tail : forall pref lastrect cmw cmh maxrects region1 ncopy npseudo k1,
-  n_region_rects pref lastrect cmw cmh region1 = Some k1 -> k1 <> 65535 ->
-  (let '(region2, n2) :=
-     if (maxrects >? 0) && negb (exempt_from_coalescing pref) && (k1 >? maxrects)
-     then ([bbox_of region1], 1) else (region1, k1) in
-   Some (wrap16 (ncopy + n2 + npseudo), region2, false)) =
-  announce pref lastrect cmw cmh maxrects region1 ncopy npseudo.
+Lemma bbox_region_nondeg : forall l, Forall nondeg l -> Forall nondeg (bbox_region l).
 Proof.
-  intros. unfold announce. rewrite H. cbn [obind]. destruct (k1 =? 65535) eqn:E; [lia|]. reflexivity.
+  intros [|r t] H; cbn [bbox_region]; [constructor|]. inversion H; subst.
+  constructor; [apply bbox_nondeg; assumption|constructor].
 Qed.
 
-(* C03_update_count for the repaired code: no "count <> 65535" hypothesis any more *)
-Lemma update_count_fixed : forall pref lastrect cmw cmh maxrects region ncopy npseudo n region' lm,
-  1 <= cmw -> 1 <= cmh -> Forall nondeg region -> region <> [] -> 0 <= ncopy -> 0 <= npseudo <= 6 ->
-  (forall kb, emitted_len (emit_region pref lastrect cmw cmh [bbox_of region]) = Some kb -> ncopy + kb + 6 < 65535) ->
-  announce_fixed pref lastrect cmw cmh maxrects region ncopy npseudo = Some (n, region', lm) ->
+Lemma finish_is_announce : forall pref lastrect cmw cmh maxrects npseudo region1 k1 nc keep,
+  n_region_rects pref lastrect cmw cmh region1 = Some k1 -> k1 <> 65535 ->
+  finish_count pref maxrects npseudo region1 k1 false nc keep =
+  match announce pref lastrect cmw cmh maxrects region1 nc npseudo with
+  | Some (n, r, lm) => Some (n, r, lm, keep)
+  | None => None
+  end.
+Proof.
+  intros. unfold finish_count, announce. rewrite H. cbn [obind]. destruct (k1 =? 65535) eqn:E; [lia|].
+  destruct ((maxrects >? 0) && negb (exempt_from_coalescing pref) && (k1 >? maxrects)); reflexivity.
+Qed.
+
+(* one stage of the repaired count: region1 is what will be emitted, nc the number of CopyRect rectangles
+   that are still sent as such *)
+Lemma stage_ok : forall pref lastrect cmw cmh maxrects npseudo region1 n1 lrm1 nc keep n region' lm keep',
+  1 <= cmw -> 1 <= cmh -> Forall nondeg region1 -> 0 <= nc -> 0 <= npseudo <= 6 ->
+  count_stage pref lastrect cmw cmh region1 = Some (n1, lrm1) ->
+  (lrm1 = false -> nc + n1 + 6 < 65535) ->
+  finish_count pref maxrects npseudo region1 n1 lrm1 nc keep = Some (n, region', lm, keep') ->
+  keep' = keep /\
   (lm = true -> n = 65535 /\ lastrect = true /\ is_tight_class pref = true) /\
   (lm = false -> exists k, emitted_len (emit_region pref lastrect cmw cmh region') = Some k /\
-                           n = ncopy + k + npseudo /\ n < 65535).
+                           n = nc + k + npseudo /\ n < 65535).
 Proof.
-  intros pref lastrect cmw cmh maxrects region ncopy npseudo n region' lm Hcw Hch Hnd Hne Hnc Hnp Hbb Ha.
-  assert (Fin : forall region1 k1, Forall nondeg region1 ->
-            emitted_len (emit_region pref lastrect cmw cmh region1) = Some k1 ->
-            n_region_rects pref lastrect cmw cmh region1 = Some k1 -> ncopy + k1 + 6 < 65535 ->
-            announce pref lastrect cmw cmh maxrects region1 ncopy npseudo = Some (n, region', lm) ->
-            lm = false /\ exists k, emitted_len (emit_region pref lastrect cmw cmh region') = Some k /\
-                                    n = ncopy + k + npseudo /\ n < 65535).
-  { intros region1 k1 Hnd1 Ek1 En1 Hb1 Ha1.
-    destruct (update_count pref lastrect cmw cmh maxrects region1 ncopy npseudo n region' lm k1 Hcw Hch Hnd1 Hnc
-                           ltac:(lia) Ha1 Ek1 ltac:(lia)) as (k' & Ek' & Hn & Hlm & _ & Hle).
-    split; [exact Hlm|]. exists k'. split; [exact Ek'|]. rewrite Hn by lia. lia. }
-  unfold announce_fixed in Ha. unfold count_stage in Ha at 1.
-  destruct (tight_unknown pref lastrect region) eqn:Eu.
-  - (* LastRect mode *)
-    cbn [obind negb andb] in Ha. inversion Ha; subst n region' lm.
-    destruct (tight_unknown_lastrect pref lastrect region Hnd Eu) as [L T].
-    split; [intros _; auto|discriminate].
-  - destruct (tight_known_emitted pref lastrect cmw cmh region Hcw Hch Hnd Eu) as (k & Ek & En & Hlen).
-    rewrite En in Ha. cbn [obind negb andb] in Ha.
-    destruct (ncopy + k + 6 >=? 65535) eqn:Ebig.
-    + (* coalesced to the bounding box and counted again *)
-      destruct region as [|r t]; [contradiction|]. inversion Hnd as [|? ? Hr Ht]; subst.
-      pose proof (bbox_nondeg r t Hr Ht) as Hb.
-      assert (Hndb : Forall nondeg [bbox_of (r :: t)]) by (constructor; [exact Hb|constructor]).
-      unfold count_stage in Ha. destruct (tight_unknown pref lastrect [bbox_of (r :: t)]) eqn:Eub.
-      * cbn [obind] in Ha. inversion Ha; subst n region' lm.
-        destruct (tight_unknown_lastrect pref lastrect _ Hndb Eub) as [L T].
-        split; [intros _; auto|discriminate].
-      * destruct (tight_known_emitted pref lastrect cmw cmh _ Hcw Hch Hndb Eub) as (kb & Ekb & Enb & _).
-        rewrite Enb in Ha. cbn [obind] in Ha. specialize (Hbb kb Ekb).
-        rewrite (announce_fixed_tail pref lastrect cmw cmh maxrects [bbox_of (r :: t)] ncopy npseudo kb Enb ltac:(lia)) in Ha.
-        destruct (Fin _ kb Hndb Ekb Enb Hbb Ha) as [Hlm Hk]. split; [intro Q; rewrite Q in Hlm; discriminate|intros _; exact Hk].
-    + cbn [obind] in Ha.
-      rewrite (announce_fixed_tail pref lastrect cmw cmh maxrects region ncopy npseudo k En ltac:(lia)) in Ha.
-      destruct (Fin _ k Hnd Ek En ltac:(lia) Ha) as [Hlm Hk]. split; [intro Q; rewrite Q in Hlm; discriminate|intros _; exact Hk].
+  intros pref lastrect cmw cmh maxrects npseudo region1 n1 lrm1 nc keep n region' lm keep'
+         Hcw Hch Hnd Hnc Hnp Hc Hb Hf.
+  unfold count_stage in Hc. destruct (tight_unknown pref lastrect region1) eqn:Eu.
+  - inversion Hc; subst n1 lrm1. cbn [finish_count] in Hf. inversion Hf; subst n region' lm keep'.
+    destruct (tight_unknown_lastrect pref lastrect region1 Hnd Eu) as [L T].
+    split; [reflexivity|]. split; [intros _; auto|discriminate].
+  - destruct (tight_known_emitted pref lastrect cmw cmh region1 Hcw Hch Hnd Eu) as (k & Ek & En & Hlen).
+    rewrite En in Hc. cbn [obind] in Hc. inversion Hc; subst n1 lrm1. specialize (Hb eq_refl).
+    rewrite (finish_is_announce pref lastrect cmw cmh maxrects npseudo region1 k nc keep En ltac:(lia)) in Hf.
+    destruct (announce pref lastrect cmw cmh maxrects region1 nc npseudo) as [[[n' r'] lm']|] eqn:Ea; [|discriminate].
+    inversion Hf; subst n' r' lm' keep'.
+    destruct (update_count pref lastrect cmw cmh maxrects region1 nc npseudo n region' lm k Hcw Hch Hnd Hnc
+                           ltac:(lia) Ea Ek ltac:(lia)) as (k' & Ek' & Hn & Hlm & _ & Hle).
+    split; [reflexivity|]. split; [intro Q; rewrite Q in Hlm; discriminate|].
+    intros _. exists k'. split; [exact Ek'|]. rewrite Hn by lia. lia.
+Qed.
+
+(* C03_update_count for the count stage with BOTH repairs (two_stage = true): no hypothesis on the number of
+   rectangles of the update region nor on the number of copy rectangles; the empty region is covered.
+   The one remaining hypothesis: the splitting of ONE rectangle (the bounding box of everything) by the
+   preferred encoding plus the six possible pseudo-rectangles fits the 16-bit field. *)
+Lemma update_count_fixed : forall pref lastrect cmw cmh maxrects region copyl npseudo n region' lm keep,
+  1 <= cmw -> 1 <= cmh -> Forall nondeg region -> Forall nondeg copyl -> 0 <= npseudo <= 6 ->
+  (forall n2 lrm2, count_stage pref lastrect cmw cmh (bbox_region (bbox_region region ++ copyl)) = Some (n2, lrm2) ->
+                   lrm2 = false -> n2 + 6 < 65535) ->
+  announce_fixed true pref lastrect cmw cmh maxrects region copyl npseudo = Some (n, region', lm, keep) ->
+  (lm = true -> n = 65535 /\ lastrect = true /\ is_tight_class pref = true) /\
+  (lm = false -> exists k, emitted_len (emit_region pref lastrect cmw cmh region') = Some k /\
+                           n = (if keep then Z.of_nat (length copyl) else 0) + k + npseudo /\ n < 65535).
+Proof.
+  intros pref lastrect cmw cmh maxrects region copyl npseudo n region' lm keep Hcw Hch Hnd Hndc Hnp Hbb Ha.
+  unfold announce_fixed in Ha.
+  destruct (count_stage pref lastrect cmw cmh region) as [[n0 lrm0]|] eqn:E0; [|discriminate]. cbn [obind] in Ha.
+  destruct (lrm0 || (Z.of_nat (length copyl) + n0 + 6 <? 65535)) eqn:B0.
+  - assert (Hb0 : lrm0 = false -> Z.of_nat (length copyl) + n0 + 6 < 65535)
+      by (intro Q; rewrite Q in B0; cbn [orb] in B0; lia).
+    destruct (stage_ok pref lastrect cmw cmh maxrects npseudo region n0 lrm0 (Z.of_nat (length copyl)) true n region' lm keep
+                       Hcw Hch Hnd ltac:(lia) Hnp E0 Hb0 Ha) as (-> & A & B). split; assumption.
+  - pose proof (bbox_region_nondeg region Hnd) as Hnd1.
+    destruct (count_stage pref lastrect cmw cmh (bbox_region region)) as [[n1 lrm1]|] eqn:E1; [|discriminate].
+    cbn [obind negb orb] in Ha.
+    destruct (lrm1 || false || (Z.of_nat (length copyl) + n1 + 6 <? 65535)) eqn:B1.
+    + assert (Hb1 : lrm1 = false -> Z.of_nat (length copyl) + n1 + 6 < 65535)
+        by (intro Q; rewrite Q in B1; cbn [orb] in B1; lia).
+      destruct (stage_ok pref lastrect cmw cmh maxrects npseudo (bbox_region region) n1 lrm1 (Z.of_nat (length copyl)) true
+                         n region' lm keep Hcw Hch Hnd1 ltac:(lia) Hnp E1 Hb1 Ha) as (-> & A & B). split; assumption.
+    + assert (Hnd2 : Forall nondeg (bbox_region (bbox_region region ++ copyl)))
+        by (apply bbox_region_nondeg; apply Forall_app; split; assumption).
+      destruct (count_stage pref lastrect cmw cmh (bbox_region (bbox_region region ++ copyl))) as [[n2 lrm2]|] eqn:E2;
+        [|discriminate]. cbn [obind] in Ha.
+      assert (Hb2 : lrm2 = false -> 0 + n2 + 6 < 65535) by (intro Q; specialize (Hbb n2 lrm2 eq_refl Q); lia).
+      destruct (stage_ok pref lastrect cmw cmh maxrects npseudo (bbox_region (bbox_region region ++ copyl)) n2 lrm2 0 false
+                         n region' lm keep Hcw Hch Hnd2 ltac:(lia) Hnp E2 Hb2 Ha) as (-> & A & B).
+      split; assumption.
+Qed.
+
+(* the first repair alone (dccedf3, two_stage = false) still wraps when the COPY rectangles reach the field
+   size: 65534 copy rectangles + 1 pseudo... announce the LastRect sentinel, 65536 announce 0 (finding F24) *)
+Lemma unit_list_len : forall m, 0 <= m -> Z.of_nat (length (repeat (0, 0, 1, 1) (Z.to_nat m))) = m.
+Proof. intros. rewrite repeat_length, Z2Nat.id; lia. Qed.
+
+Lemma count_wrap_copy_witness :
+  announce_fixed false enc_Raw false 48 48 50 [] (repeat (0, 0, 1, 1) (Z.to_nat 65535)) 0 = Some (65535, [], false, true) /\
+  announce_fixed false enc_Raw false 48 48 50 [] (repeat (0, 0, 1, 1) (Z.to_nat 65536)) 0 = Some (0, [], false, true) /\
+  (exists r k, announce_fixed true enc_Raw false 48 48 50 [] (repeat (0, 0, 1, 1) (Z.to_nat 65536)) 0 = Some (1, [r], false, false) /\
+               emitted_len (emit_region enc_Raw false 48 48 [r]) = Some k /\ k = 1).
+Proof.
+  unfold announce_fixed. change (count_stage enc_Raw false 48 48 []) with (Some (0, false)). cbn [obind bbox_region app].
+  rewrite !unit_list_len by lia. cbn [orb negb].
+  change (65535 + 0 + 6 <? 65535) with false. change (65536 + 0 + 6 <? 65535) with false. cbv iota.
+  change (count_stage enc_Raw false 48 48 []) with (Some (0, false)). cbn [obind orb negb].
+  change (65535 + 0 + 6 <? 65535) with false. change (65536 + 0 + 6 <? 65535) with false. cbv iota.
+  split; [reflexivity|]. split; [reflexivity|].
+  assert (E : bbox_region (repeat (0, 0, 1, 1) (Z.to_nat 65536)) = [(0, 0, 1, 1)]).
+  { assert (G : forall n acc, acc = (0, 0, 1, 1) -> fold_left bbox_step (repeat (0, 0, 1, 1) n) acc = (0, 0, 1, 1))
+      by (induction n; intros acc ->; [reflexivity|cbn [repeat fold_left]; apply IHn; reflexivity]).
+    change (Z.to_nat 65536) with (S (Z.to_nat 65535)). cbn [repeat bbox_region bbox_of]. rewrite G by reflexivity. reflexivity. }
+  rewrite E. exists (0, 0, 1, 1), 1. repeat split; reflexivity.
 Qed.
 
 Lemma announce_fixed_examples :
-  (exists r', announce_fixed enc_Raw false 48 48 0 (repeat (0, 0, 1, 1) (Z.to_nat 300)) 65400 0 = Some (65401, r', false)) /\
-  announce_fixed enc_Tight true 48 48 50 [(0, 0, 64, 64)] 0 0 = Some (65535, [(0, 0, 64, 64)], true) /\
-  announce_fixed enc_CoRRE false 48 48 50 [(0, 0, 100, 50); (0, 50, 10, 10)] 2 1 = Some (10, [(0, 0, 100, 50); (0, 50, 10, 10)], false).
-Proof. split; [eexists; vm_compute; reflexivity|split; reflexivity]. Qed.
+  (exists r', announce_fixed true enc_Raw false 48 48 0 (repeat (0, 0, 1, 1) (Z.to_nat 300)) (repeat (5, 5, 1, 1) (Z.to_nat 100)) 0
+              = Some (400, r', false, true)) /\
+  announce_fixed true enc_Tight true 48 48 50 [(0, 0, 64, 64)] [] 0 = Some (65535, [(0, 0, 64, 64)], true, true) /\
+  announce_fixed true enc_CoRRE false 48 48 50 [(0, 0, 100, 50); (0, 50, 10, 10)] [(1, 1, 2, 2); (3, 3, 1, 1)] 1
+    = Some (10, [(0, 0, 100, 50); (0, 50, 10, 10)], false, true) /\
+  announce_fixed true enc_Raw false 48 48 50 [] [] 3 = Some (3, [], false, true).
+Proof. split; [eexists; vm_compute; reflexivity|repeat split; reflexivity]. Qed.
